@@ -300,12 +300,15 @@ func (fr *Frame) goHasNoEffect(g *ssa.Go) bool {
 	return ct.HasAssigns && len(ct.Assigns) == 0
 }
 
-// errClauses: contract clauses that could not be evaluated on the current tree (a name they use is gone, ...)
+// errClauses: contract clauses that could not be evaluated on the current tree, with the reason.
 var errClauses = map[*Clause]bool{}
+var errClauseMsg = map[*Clause]string{}
 
-// contractStale: some clause of the function's contract could not be evaluated on this tree. Proofs of that
-// function may then fail only because an invariant or assumption is missing, so a failed obligation of it
-// is reported as undecided (contract out of date), not as a violation.
+// contractStale: a clause of fn's contract names something the current tree no longer has (a renamed or removed
+// local, field or function). The proof of fn's other obligations may then fail for lack of that clause alone, so
+// a failing obligation of fn is undecided rather than a violation. Clauses that still name existing things but no
+// longer type-check or no longer find their loop (the code they describe was rewritten, not renamed) do not
+// excuse a failing obligation.
 func (W *World) contractStale(fn string) bool {
 	ct := W.contracts[fn]
 	if ct == nil {
@@ -313,9 +316,18 @@ func (W *World) contractStale(fn string) bool {
 	}
 	for _, list := range [][]*Clause{ct.Requires, ct.Ensures, ct.Invs, ct.Asserts} {
 		for _, cl := range list {
-			if errClauses[cl] {
+			if errClauses[cl] && renameLike(errClauseMsg[cl]) {
 				return true
 			}
+		}
+	}
+	return false
+}
+
+func renameLike(msg string) bool {
+	for _, k := range []string{"unknown identifier", "no field ", "unknown member", "no method "} {
+		if strings.Contains(msg, k) {
+			return true
 		}
 	}
 	return false
@@ -494,4 +506,39 @@ func heapAllocRoot(v ssa.Value) *ssa.Alloc {
 			return nil
 		}
 	}
+}
+
+// phiStartsAtZero: every edge entering the loop from outside carries the constant 0.
+func phiStartsAtZero(p *ssa.Phi, li *loopInfo) bool {
+	n := 0
+	for i, e := range p.Edges {
+		if li.body[li.header.Preds[i]] {
+			continue
+		}
+		c, ok := e.(*ssa.Const)
+		if !ok || c.Value == nil || c.Value.Kind() != constant.Int {
+			return false
+		}
+		if v, exact := constant.Int64Val(c.Value); !exact || v != 0 {
+			return false
+		}
+		n++
+	}
+	return n > 0
+}
+
+// rootMentions: the contract of the function under verification uses the given spec construct.
+func (ex *Exec) rootMentions(sub string) bool {
+	ct := ex.W.contracts[ex.curFn]
+	if ct == nil {
+		return false
+	}
+	for _, list := range [][]*Clause{ct.Requires, ct.Ensures, ct.Invs, ct.Asserts, ct.Domains} {
+		for _, cl := range list {
+			if strings.Contains(cl.Text, sub) {
+				return true
+			}
+		}
+	}
+	return false
 }
